@@ -150,6 +150,31 @@ func init() {
 			}
 		}
 	})
+	// {"suffix": .., "ops": [{"type": .., "request": ..}, ...]} -> the operations folded through the applier, each on the state
+	// its predecessors left (a refused operation leaves the state as it was)
+	registerEntry("ApplyHistory", func(in []byte) {
+		entrySetup()
+		var x struct {
+			Suffix string `json:"suffix"`
+			Ops    []struct {
+				Type    string `json:"type"`
+				Request string `json:"request"`
+			} `json:"ops"`
+		}
+		if json.Unmarshal(in, &x) != nil {
+			return
+		}
+		state := &protocol.ResolutionModel{}
+		for i, o := range x.Ops {
+			a := anchoredBytes(o.Type, []byte(o.Request), x.Suffix, anchorMeta{Time: uint64(5 + i), Number: uint64(i), Canonical: "h"})
+			if res, err := entryStack.Applier.Apply(a, state); err == nil && res != nil {
+				state = res
+				if res.Doc != nil {
+					transformAll(res.Doc)
+				}
+			}
+		}
+	})
 	// DID string -> ParseDID, ResolveDocument, VDR.Read
 	registerEntry("ResolveDID", func(in []byte) {
 		entrySetup()
